@@ -102,11 +102,21 @@ def l1d_case(arg):
                 out += [x for x in pa if x not in out]
         elif r < 0.85 and out:
             rng.shuffle(out)
-            for _ in range(rng.randrange(1, len(out) + 1)):
-                x = out.pop()
-                y = g(x)
-                a.tell(x, y)
-                b.tell(cx * x, cy * y)
+            k = rng.randrange(1, len(out) + 1)
+            if not deep and rng.random() < 0.3:
+                # the same results as one batch (both paths of tell_many; the rest stays pending)
+                xs, out = out[:k], out[k:]
+                ys = [g(x) for x in xs]
+                force = rng.random() < 0.5
+                a.tell_many(xs, ys, force=force)
+                b.tell_many([cx * x for x in xs], [cy * y for y in ys], force=force)
+                res["batches"] = res.get("batches", 0) + 1
+            else:
+                for _ in range(k):
+                    x = out.pop()
+                    y = g(x)
+                    a.tell(x, y)
+                    b.tell(cx * x, cy * y)
         elif r < 0.9:
             x = lo + (hi - lo) * rng.randrange(0, 65) / 64.0
             a.tell_pending(x)
